@@ -160,7 +160,7 @@ Theorem client_line_cases : forall cfg c,
   | None => None
   | Some (inl e) => Some (inl e)
   | Some (inr v) =>
-    if Nat.eqb (mv_count v) 0 then Some (inl InvalidInput)
+    if Nat.eqb (mv_count v) 0 then Some (inl EInvalid)
     else Some (inr (wire_line (full_name (c_prefix cfg) (k_key c)) (value_texts v) (code (k_kind c))
                   (op_rate (k_ops c)) (c_tags cfg ++ op_tags (k_ops c))
                   (or_else (op_container (k_ops c)) (c_container cfg)) (op_timestamp (k_ops c))))
@@ -180,22 +180,31 @@ Proof.
     destruct (mv_count v); discriminate.
 Qed.
 
-(* the only error a conversion produces is InvalidInput *)
-Lemma to_value_err : forall k a e, to_value k a = Some (inl e) -> e = InvalidInput.
+(* the only error a conversion of the library produces is InvalidInput; the only other error a
+   conversion produces is the one a user-defined impl returns *)
+Lemma to_value_user_err : forall k e, to_value k (AUserErr e) = Some (inl e).
+Proof. intros k e. destruct k; reflexivity. Qed.
+
+Lemma to_value_err : forall k a e, to_value k a = Some (inl e) -> e = EInvalid \/ a = AUserErr e.
 Proof.
   intros k a e H. destruct a; try (destruct k; cbn [to_value] in H; congruence).
-  - destruct k; cbn [to_value] in H; try discriminate; unfold conv_dur in H;
+  - left. destruct k; cbn [to_value] in H; try discriminate; unfold conv_dur in H;
       match type of H with context [if ?b then _ else _] => destruct b end; congruence.
-  - destruct k; cbn [to_value] in H; try discriminate; unfold conv_durs in H;
+  - left. destruct k; cbn [to_value] in H; try discriminate; unfold conv_durs in H;
       match type of H with context [if ?b then _ else _] => destruct b end; congruence.
+  - right. rewrite to_value_user_err in H. congruence.
 Qed.
 
-Lemma client_line_err : forall cfg c e, client_line cfg c = Some (inl e) -> e = InvalidInput.
+Lemma client_line_user_err : forall cfg c e, k_arg c = AUserErr e -> client_line cfg c = Some (inl e).
+Proof. intros cfg c e H. rewrite client_line_cases, H, to_value_user_err. reflexivity. Qed.
+
+Lemma client_line_err : forall cfg c e,
+  client_line cfg c = Some (inl e) -> e = EInvalid \/ k_arg c = AUserErr e.
 Proof.
   intros cfg c e H. rewrite client_line_cases in H.
   destruct (to_value (k_kind c) (k_arg c)) as [[e'|v]|] eqn:Ev; try discriminate.
   - inversion H; subst. eapply to_value_err; eauto.
-  - destruct (Nat.eqb (mv_count v) 0); congruence.
+  - left. destruct (Nat.eqb (mv_count v) 0); congruence.
 Qed.
 
 (* ------------------------------------------------------------------ constructors *)
